@@ -436,12 +436,14 @@ static void convert_pp_number(Token *tok) {
   Type *ty;
   if (*end == 'f' || *end == 'F') {
     ty = ty_float;
+    val = strtof(tok->loc, NULL);
     end++;
   } else if (*end == 'l' || *end == 'L') {
     ty = ty_ldouble;
     end++;
   } else {
     ty = ty_double;
+    val = strtod(tok->loc, NULL);
   }
 
   if (tok->loc + tok->len != end)
